@@ -14,13 +14,13 @@ PENDING = {k: "claimed by design (DESIGN.md §5); check not yet registered in th
 
 LEVEL_TEXT = {
     "C06": {
-        "text": "Seeded enumeration of operation-and-fault histories (reader sessions x reload kinds x shutdown position) under seeded interleavings, with an open/use/close monitor evaluated on every back-end call and a leak check at quiescence. Every kind of reload outcome the property lists is forced by the fault plan; failing histories are minimised and replay exactly. Evidence, not proof: bounded histories (<= 5 reloads, <= 3 readers) and yield-point granularity.",
+        "text": "Seeded enumeration of operation-and-fault histories (reader sessions x reload kinds x shutdown position) under seeded interleavings, with an open/use/close monitor evaluated on every back-end call and a leak check at quiescence. Every kind of reload outcome the property lists is forced by the fault plan; a share of histories runs on the real cdb/rocksdb drivers, a third of those as whole-process runs (real fbserver.Server whose LogMapAge / DumpBackendStats tickers outlive Server.Shutdown); failing histories are minimised and replay exactly. Evidence, not proof: bounded histories (<= 5 reloads, <= 3 readers) and yield-point granularity.",
         "design_ref": "§5.2",
         "note": "Trusts the monitor DBI and the stub back end; real FBDNSDB/db.DB/db.Reload code runs unmodified apart from no-op yield hooks. The select tie in db.Reload is out of reach of the controlled scheduler.",
         "technique": "deterministic simulation: seeded scheduler + fault plan over an instrumented DBI, lifecycle monitor, rapid shrinking, exact replay",
     },
     "C05": {
-        "text": "Seeded exploration of interleavings of in-flight queries with the steps of full/partial/failing reloads on the real handler and the real CDB and RocksDB drivers, generation-stamped data so that every response names the generation(s) it was computed from. Oracles: one stamp per response, a failed reload never becomes visible, a partial reload follows the path last switched to (decoy generation on the previous path), and the reload/query history is linearizable as a register (porcupine, event sequence numbers). Violations are minimised by rapid and replay exactly. A second, free-running tier (the property's quantifier names it) runs six query workers and one synchronous operator on real cores with the hooks in perturbation mode and judges only timing-independent invariants (a query started after a successful reload returned carries at least that generation, per-worker stamps never decrease, a failed generation is never served, one stamp per response, outcome of valid / missing / key-less switches, served generation at quiescence). Evidence, not proof.",
+        "text": "Seeded exploration of interleavings of in-flight queries with the steps of full/partial/failing reloads on the real handler and the real CDB and RocksDB drivers, generation-stamped data so that every response names the generation(s) it was computed from. Oracles: one stamp per response, a failed reload never becomes visible, a partial reload follows the path last switched to (decoy generation on the previous path), and the reload/query history is linearizable as a register (porcupine, event sequence numbers). Violations are minimised by rapid and replay exactly. A second, free-running tier (the property's quantifier names it) runs six query workers and one synchronous operator on real cores with the hooks in perturbation mode and judges only timing-independent invariants (a query started after a successful reload returned carries at least that generation, per-worker stamps never decrease, a failed generation is never served, one stamp per response, outcome of valid / missing / key-less switches, served generation at quiescence). One controlled run in four is a whole-process run: the handler inside a real fbserver.Server, reload requests as control files / file-system events / SIGHUP through the real watcher loops (simulated inotify channels), the server's own tickers running. Evidence, not proof.",
         "design_ref": "§5.1",
         "note": "Trusts the stamp extraction, the monitor wrapper and porcupine. Interleavings of the controlled tier are at yield-point granularity; the free-running tier reaches finer ones but does not replay instruction-exactly (its report is re-run from the same seed). RocksDB background threads are unscheduled. Three genuine defects of the RocksDB in-place catch-up are listed in known_findings.jsonl and matched by signature (backend + cause), never by property alone.",
         "technique": "deterministic simulation: seeded scheduler over real handler + real storage drivers, generation stamps, register linearizability (porcupine), fault plan for reloads (incl. low-level catch-up failure), exact replay; plus a seeded free-running stress tier with timing-independent invariants",
@@ -74,9 +74,9 @@ LEVEL_TEXT = {
         "technique": "deterministic simulation: seeded random stream + seeded scheduling of concurrent clients, per-response invariants and a seeded chi-square test",
     },
     "C14": {
-        "text": "Two tiers. (a) Controlled schedules on the simulated server with the real reload loop, the real periodic reloader on the fake ticker, a stats reporter and Close at a seeded position, both backends: a quiescent state with unfinished tasks is a deadlock, any panic and any call reaching a closed storage back end is a crash. (b) Data races: the same kind of workload free-running on all cores under the Go race detector with the hooks in perturbation mode (no synchronisation), including the real fsnotify watcher, real metrics.Stats (counter = sum of increments) and the weighted-selection invariants. Evidence, not proof.",
+        "text": "Two tiers. (a) Controlled schedules on the simulated server with the real reload loop, the real periodic reloader on the fake ticker, a stats reporter and Close at a seeded position, both backends: a quiescent state with unfinished tasks is a deadlock, any panic and any call reaching a closed storage back end is a crash. One run in three is a whole-process run (real fbserver.Server as cmd/dnsrocks wires it: watcher loops on simulated inotify channels with spurious / duplicated events and watcher errors, control files, SIGHUP, LogMapAge and DumpBackendStats tickers, Server.Shutdown once or twice). (b) Data races: the same kind of workload free-running on all cores under the Go race detector with the hooks in perturbation mode (no synchronisation), including the real fsnotify watcher, real metrics.Stats (counter = sum of increments) and the weighted-selection invariants. Evidence, not proof.",
         "design_ref": "§5.8",
-        "note": "Tier (b) is the one place where replay means 'same report from a fresh process with the same seed'. Four genuine defects found and fixed (stats and reload after Close; races on IteratorPool.enabled and on the served DB path); the send-on-closed-channel panic of the periodic reloader at shutdown is a recorded known finding.",
+        "note": "Tier (b) is the one place where replay means 'same report from a fresh process with the same seed'. Four genuine defects found and fixed (stats and reload after Close; races on IteratorPool.enabled and on the served DB path); the send-on-closed-channel panic of the periodic reloader at shutdown, a reader handed out after Close (LogMapAge after a watcher-induced shutdown) and the panic of a second Shutdown were found and fixed as well.",
         "technique": "deterministic simulation (seeded scheduler: deadlock/panic/use-after-close) plus a seeded free-running stress tier under the Go race detector",
     },
     "C20": {
